@@ -8,6 +8,7 @@ import (
 	"time"
 
 	"github.com/sharedcode/sop"
+	"github.com/sharedcode/sop/common"
 )
 
 // Job is what a child process is asked to do on a database directory.
@@ -27,6 +28,9 @@ type Job struct {
 	CrashAfter bool     `json:"crash_after,omitempty"`
 	// restart: number of warm-up write transactions before the final dump, and the probe key base
 	Warmups int `json:"warmups,omitempty"`
+	// Maintenance: every later write transaction (and one before the first reader) runs SOP's maintenance pass
+	// through the verif hook once its stores are open - what Begin is meant to do (see C09's recorded finding).
+	Maintenance bool `json:"maintenance,omitempty"`
 }
 
 // JobResult is what the child writes to Job.Out.
@@ -186,8 +190,40 @@ func runVictimJob(e *Env, j Job, r *JobResult) {
 }
 
 // runRestartJob is the process that comes up after the crash: public API only.
+// maintenanceTxn: a write transaction that opens the stores, runs the maintenance pass and commits nothing.
+func maintenanceTxn(e *Env, stores []StoreOpts) string {
+	t, err := e.NewTxn(TxnOptions{Mode: sop.ForWriting, MaxTime: 20 * time.Second})
+	if err != nil {
+		return err.Error()
+	}
+	if err := t.Tx.Begin(Ctx); err != nil {
+		return "Begin: " + err.Error()
+	}
+	for _, so := range stores {
+		if _, err := OpenBtree[int, string](t, so.Name); err != nil {
+			return "Open: " + err.Error()
+		}
+	}
+	if ct, ok := t.Tx.GetPhasedTransaction().(*common.Transaction); ok {
+		ct.RunMaintenanceForVerif(Ctx)
+	} else {
+		return "HARNESS-ERROR no common.Transaction behind the transaction"
+	}
+	if t.Tx.HasBegun() {
+		if err := t.Tx.Commit(Ctx); err != nil {
+			return "Commit: " + err.Error()
+		}
+	}
+	return ""
+}
+
 func runRestartJob(e *Env, j Job, r *JobResult) {
 	stores := j.Stores
+	if j.Maintenance {
+		if msg := maintenanceTxn(e, stores); msg != "" {
+			r.WarmupErrs = append(r.WarmupErrs, "maintenance: "+msg)
+		}
+	}
 	d, err := e.Dump(stores, sop.ForReading)
 	if err != nil {
 		r.FirstDumpErr = err.Error()
@@ -207,6 +243,11 @@ func runRestartJob(e *Env, j Job, r *JobResult) {
 		for _, so := range stores {
 			if _, err := OpenBtree[int, string](t, so.Name); err != nil {
 				r.WarmupErrs = append(r.WarmupErrs, "Open: "+err.Error())
+			}
+		}
+		if j.Maintenance && t.Tx.HasBegun() {
+			if ct, ok := t.Tx.GetPhasedTransaction().(*common.Transaction); ok {
+				ct.RunMaintenanceForVerif(Ctx)
 			}
 		}
 		if t.Tx.HasBegun() {
